@@ -40,3 +40,16 @@ __CPROVER_requires(INV_AT_VAR(o, v1) && INV_AT_VAR(o, v2) && INV_AT_VAR(o, ghost
 __CPROVER_assigns(__CPROVER_object_whole(o->var2level), __CPROVER_object_whole(o->level2var))
 ENSURES(exchange_is_an_involution, o->var2level[ghost_g] == __CPROVER_old(o->var2level[ghost_g]) && o->level2var[ghost_g] == __CPROVER_old(o->level2var[ghost_g]))
 ;
+
+/* "compatible" = the same order: a forest may only take over another forest's order object if every level holds the same variable */
+_Bool variable_order__is_compatible_with_order(const struct variable_order *self, const struct variable_order *order)
+__CPROVER_requires(__CPROVER_is_fresh(self, sizeof(*self)) && 1 <= self->ghost_n && self->ghost_n <= VORD_MAXN)
+__CPROVER_requires(__CPROVER_is_fresh(self->level2var, (self->ghost_n + 1) * sizeof(int)) && __CPROVER_is_fresh(self->var2level, (self->ghost_n + 1) * sizeof(int)))
+__CPROVER_requires(order == self || (__CPROVER_is_fresh(order, sizeof(*order)) && 1 <= order->ghost_n && order->ghost_n <= VORD_MAXN &&
+                   __CPROVER_is_fresh(order->level2var, (order->ghost_n + 1) * sizeof(int)) && __CPROVER_is_fresh(order->var2level, (order->ghost_n + 1) * sizeof(int))))
+__CPROVER_requires(ghost_g <= self->ghost_n)
+__CPROVER_assigns()
+ENSURES(an_order_is_compatible_with_itself, order != self || __CPROVER_return_value)
+ENSURES(compatible_orders_have_the_same_number_of_variables, !__CPROVER_return_value || self->ghost_n == order->ghost_n)
+ENSURES(compatible_orders_hold_the_same_variable_at_every_level, !__CPROVER_return_value || self->level2var[ghost_g] == order->level2var[ghost_g])
+;
